@@ -28,6 +28,7 @@ type Opts struct {
 	MarkerHeavy  bool // whitespace markers on most elements
 	RenderHeavy  bool // favour @render / @children
 	EmptyBlocks  bool // allow a block that contains only `-#` comments
+	DupAttrs       bool // an attribute name written twice in one list (the later value overrides the earlier)
 	VerbSpacing    bool // several blanks after a format verb, a blank before the closing brace
 	TrailingSpace  bool // blanks / tabs after `- statement` lines
 	Trailers       bool // Go code after the closing brace of a template, on the same line
@@ -158,6 +159,16 @@ func (g *G) attrs(n *Node) {
 			a.Expr = g.boolFrag()
 		}
 		n.Attrs = append(n.Attrs, a)
+	}
+	if g.O.DupAttrs && len(n.Attrs) > 0 && g.chance(3) {
+		first := n.Attrs[g.R.Intn(len(n.Attrs))]
+		if first.Name != "class" {
+			dup := Attr{Name: first.Name, QuoteCh: first.QuoteCh, Kind: ADynamic, Expr: g.strFrag()}
+			if g.chance(3) {
+				dup = Attr{Name: first.Name, QuoteCh: first.QuoteCh, Kind: ACond, Expr: g.boolFrag()}
+			}
+			n.Attrs = append(n.Attrs, dup)
+		}
 	}
 	if g.chance(8) {
 		n.ClassAttr = g.pick("k1", "k1 k2")
